@@ -4,6 +4,7 @@ package zzsimrt
 
 import (
 	"fmt"
+	"reflect"
 	"unsafe"
 )
 
@@ -99,11 +100,20 @@ func (h *hbState) release(t *Task, vc *vclock) {
 	t.vc.set(t.ID, t.vc.get(t.ID)+1)
 }
 
+// ch returns the clock of a channel. The key is the channel's identity, not the interface
+// value it arrives in: the same channel reaches the runtime as chan T (a select case),
+// <-chan T (Recv) and chan<- T (Close), three different interface values, and keyed by
+// those the close of a channel and the receive it wakes did not meet (found in wave 11:
+// "failErr = err; close(failed)" / "<-failed; read failErr" was reported as a race).
 func (h *hbState) ch(c interface{}) *vclock {
-	v := h.chans[c]
+	var key interface{} = c
+	if rv := reflect.ValueOf(c); rv.IsValid() && rv.Kind() == reflect.Chan {
+		key = rv.Pointer()
+	}
+	v := h.chans[key]
 	if v == nil {
 		v = &vclock{}
-		h.chans[c] = v
+		h.chans[key] = v
 	}
 	return v
 }
